@@ -202,6 +202,24 @@ def patch_text(spec, how):
     return b"".join(out)
 
 
+def rename_patch_text(spec, how):
+    """Pure rename / copy patches (no hunks), paths carry the one component that strip=1 removes.
+    how='rename': every leaf path of the spec is the hostile SOURCE, moved to the harmless moved<i>;
+    how='copy_to': a new file zsrc is added and copied to every leaf path (hostile DESTINATION)."""
+    out = []
+    if how == "copy_to":
+        out.append(b"diff --git a/zsrc b/zsrc\nnew file mode 100644\nindex 0000000..1111111\n--- /dev/null\n+++ b/zsrc\n@@ -0,0 +1 @@\n+zsrc\n\n")
+    for i, (p, kind, _depth) in enumerate(leaves(spec)):
+        if kind == "G":
+            continue
+        if how == "rename":
+            src, dst, verb = p, b"moved%d" % i, b"rename"
+        else:
+            src, dst, verb = b"zsrc", p, b"copy"
+        out.append(b"diff --git x/%s x/%s\nsimilarity index 100%%\n%s from x/%s\n%s to x/%s\n\n" % (src, dst, verb, src, verb, dst))
+    return b"".join(out)
+
+
 def mail_text(spec):
     return (b"From: A <a@example.com>\nDate: Sun, 09 Sep 2001 01:46:40 +0000\nSubject: [PATCH] c17\n\nc17\n---\n"
             + patch_text(spec, "add") + b"-- \n2.39.5\n")
@@ -318,17 +336,17 @@ def initial_state(cfg, with_wt=True):
 #
 # op = (kind, spec | None).  Kinds with a tree argument:
 #   clone, checkout, checkout_force, switch, reset_hard, reset_mixed, reset_soft, stash_apply, patch_add,
-#   patch_del, am, checkout_paths, restore_paths
+#   patch_del, am, checkout_paths, restore_paths, patch_rename, patch_copy_to
 # without: reset_index, stash_push, stash_pop, am_abort
 
 TREE_OPS = ["checkout", "checkout_force", "switch", "reset_hard", "reset_mixed", "reset_soft", "stash_apply", "patch_add", "patch_del", "am",
-            "checkout_paths", "restore_paths"]
+            "checkout_paths", "restore_paths", "patch_rename", "patch_copy_to"]
 PLAIN_OPS = ["reset_index", "stash_push", "stash_pop", "am_abort"]
 ENTRY = {
     "clone": "clone", "checkout": "checkout", "checkout_force": "checkout", "switch": "switch", "reset_hard": "reset-hard",
     "reset_mixed": "reset-mixed", "reset_soft": "reset-soft", "reset_index": "reset_index", "stash_push": "stash_push",
     "stash_pop": "stash_pop", "stash_apply": "stash_pop", "patch_add": "apply_patch", "patch_del": "apply_patch", "am": "am", "am_abort": "am_abort",
-    "checkout_paths": "checkout-paths", "restore_paths": "restore",
+    "checkout_paths": "checkout-paths", "restore_paths": "restore", "patch_rename": "apply_patch", "patch_copy_to": "apply_patch",
 }
 
 
@@ -424,6 +442,8 @@ def perform(S, op):
             porcelain.stash_pop(wt)
         elif kind in ("patch_add", "patch_del"):
             porcelain.apply_patch(wt, patch_file=io.BytesIO(patch_text(spec, kind[6:])))
+        elif kind in ("patch_rename", "patch_copy_to"):
+            porcelain.apply_patch(wt, patch_file=io.BytesIO(rename_patch_text(spec, kind[6:])))
         elif kind == "am":
             porcelain.am(wt, patches=io.BytesIO(mail_text(spec)), committer=b"C <c@example.com>", commit_timestamp=1000000000, commit_timezone=0)
         elif kind == "am_abort":
@@ -789,7 +809,7 @@ def fam_slash_name(kinds):
     """An entry whose NAME contains a slash or backslash next to an entry it aliases or runs through."""
     out = []
     for k in kinds:
-        for other in (E(b"a/b", "f"), E(b"a/a", "f"), E(b"a\\b", "f"), E(b"a", "D", (E(b"b", "x"),))):
+        for other in (E(b"a/b", "f"), E(b"a/a", "f"), E(b"a\\b", "f"), E(b"a", "D", (E(b"b", "x"),)), E(b"a/b/c", "f")):
             out.append(canon((E(b"a", k), other)))
     return out
 
@@ -820,7 +840,7 @@ POISON = E(b"git~1", "f")  # sorts after 'a' and 'dir'; refused under the defaul
 POISON_NESTED = E(b"dir", "D", (E(b".git", "f"),))  # refused in every configuration; sorts after 'a'
 
 
-def fam_reuse(link_ids, file_kinds, nested_links, poison, poison_for=None, in_tree=True):
+def fam_reuse(link_ids, file_kinds, nested_links, poison, poison_for=None, in_tree=True, slash_for=(), deep=False):
     """The name-reuse family for sequences: the slot 'a' takes every kind (absent, file, symlink,
     directory with child 'a', gitlink); optional companions."""
     slot = [()]
@@ -832,6 +852,10 @@ def fam_reuse(link_ids, file_kinds, nested_links, poison, poison_for=None, in_tr
     out = list(slot)
     for comp in poison:
         out += [canon(s + (comp,)) for s in slot if s and (poison_for is None or s[0][1] in poison_for)]
+    # the link next to an entry whose NAME runs through it ('a/b': one raw name with a slash inside)
+    out += [canon((E(b"a", "L:" + t), E(b"a/b", "f"))) for t in slash_for]
+    if deep:  # the slot as a directory two levels deep: a/dir/a
+        out += [(E(b"a", "D", (E(b"dir", "D", (E(b"a", "f"),)),)),)]
     if in_tree:  # an in-tree link target comes with its target
         out += [canon((E(b"a", "L:dir"), E(b"dir", "D", (E(b"a", "f"),))))]
     seen, res = set(), []
@@ -1087,8 +1111,9 @@ def run(ctx):
     if not q:
         famShapes += fam_triples(mid)
     famA = _dedupe(famNames + famShapes)
-    entryA = ["checkout", "reset_hard", "stash_apply", "patch_add", "am", "checkout_paths"] if q else \
-        ["checkout", "checkout_force", "switch", "reset_hard", "stash_apply", "patch_add", "patch_del", "am", "checkout_paths", "restore_paths"]
+    entryA = ["checkout", "reset_hard", "stash_apply", "patch_add", "am", "checkout_paths", "patch_rename", "patch_copy_to"] if q else \
+        ["checkout", "checkout_force", "switch", "reset_hard", "stash_apply", "patch_add", "patch_del", "am", "checkout_paths", "restore_paths",
+         "patch_rename", "patch_copy_to"]
     unbornA = ["checkout"] if q else ["checkout", "reset_hard"]
     cfgsA = ["default", "ntfs-off", "ntfs-off+hfs-on"] if q else list(CONFIGS)
     famNames2 = _dedupe(fam_single(LEAF_KINDS) + fam_nested(NAMES, NAMES, ["f", "G"]))  # quick, non-default configurations
@@ -1112,14 +1137,17 @@ def run(ctx):
     planB = []
     if q:
         planB.append(("B-depth2", "default", fam_reuse(["updir", "upfile", "hooks", "gitfile", "gitnew"], ["f"], [], [POISON],
-                                                      poison_for=("f", "L:updir", "D")), TREE_OPS, 2))
+                                                      poison_for=("f", "L:updir", "D"), slash_for=("updir",), deep=True),
+                      [k for k in TREE_OPS if k != "patch_copy_to"], 2))
         planB.append(("B-depth3", "default", fam_reuse(["updir", "gitfile"], ["f"], [], [POISON], poison_for=("L:updir",), in_tree=False),
                       ["checkout", "checkout_force", "reset_hard", "reset_mixed", "reset_soft", "stash_apply", "patch_add", "checkout_paths"], 3))
     else:
         planB.append(("B-depth3", "default", fam_reuse(["updir", "absdir", "upfile", "hooks", "gitfile", "gitnew"], ["f"], ["updir"], [POISON],
-                                                      poison_for=("L:updir", "D")), [k for k in TREE_OPS if k not in ("switch", "restore_paths")], 3))
+                                                      poison_for=("L:updir", "D"), slash_for=("updir", "hooks"), deep=True),
+                      [k for k in TREE_OPS if k not in ("switch", "restore_paths", "patch_copy_to")], 3))
         planB.append(("B-depth2", "default", fam_reuse(LINK_IDS, list(FILE_MODES), ["updir", "gitfile"], [POISON, POISON_NESTED],
-                                                      poison_for=("f", "L:updir", "L:gitfile", "D")), TREE_OPS, 2))
+                                                      poison_for=("f", "L:updir", "L:gitfile", "D"), slash_for=("updir", "absdir", "hooks", "git"), deep=True),
+                      TREE_OPS, 2))
         planB.append(("B-depth2", "ntfs-off", fam_reuse(LINK_IDS, ["f", "x"], ["updir"], [POISON, POISON_NESTED],
                                                        poison_for=("f", "L:updir", "L:gitfile", "D")), TREE_OPS, 2))
     for label, cfg, uni, tops, depth in planB:
@@ -1142,7 +1170,7 @@ def run(ctx):
              "a transition restores the state, runs one real dulwich operation on a tree built from raw bytes and compares recursive snapshots "
              "of everything outside the work tree and of .git minus the bookkeeping allow-list; unsafe paths judged by an independent model "
              "cross-checked against C git.",
-        bounds={"names": len(NAMES), "leaf_kinds": len(LEAF_KINDS), "link_targets": len(LINK_IDS), "max_entries_per_level": 2 if q else 3, "max_tree_depth": 2,
+        bounds={"names": len(NAMES), "leaf_kinds": len(LEAF_KINDS), "link_targets": len(LINK_IDS), "max_entries_per_level": 2 if q else 3, "max_tree_depth": "2 (+ one depth-3 tree a/dir/a in the sequence universes)",
                 "family_A_trees": len(famA), "family_A_names_matrix": len(famNames)},
     )
     for s in famA[:3] + uniB[:3]:
@@ -1176,7 +1204,7 @@ def warmup():
         case_sequence(sub, cfg, [("clone", t1)])
         case_sequence(sub, cfg, [("reset_soft", ()), ("checkout", t1), ("switch", ()), ("checkout_force", t1), ("reset_mixed", t2), ("stash_push", None),
                                  ("stash_pop", None), ("reset_hard", t1), ("stash_apply", t1), ("patch_add", t2), ("patch_del", t1), ("reset_index", None),
-                                 ("checkout_paths", t2), ("restore_paths", t1),
+                                 ("checkout_paths", t2), ("restore_paths", t1), ("patch_rename", t1), ("patch_copy_to", t2),
                                  ("am", t2), ("am", t2), ("am_abort", None), ("reset_soft", t2), ("reset_hard", ())])
     # a deliberately failing am leaves state for am_abort
     case_sequence(sub, "default", [("reset_soft", ()), ("am", (E(b".git", "f"),)), ("am_abort", None)])
